@@ -21,7 +21,11 @@ META = {
     'level_note': 'Trusted: Lean kernel (axioms propext and Quot.sound only); the hand model lean/Librfn/Model/Bintree.lean (pointer and tag bit of `left` are independent components: this is exactly the assumption of the property that nodes are at least 2-byte aligned, so only bit 0 of a node address is free; the correspondence run exercises it at alignments 2, 4 and 8 by placing nodes at addresses 0, 2, 4 and 6 mod 8 in exactly-sized blocks — x86 tolerates the unaligned pointer fields and the harness is not built with -fsanitize=alignment; '
                   'the deallocator really frees; the is_list callback inspects its node and answers false for NULL); the model-vs-C tie is sampling (exhaustive over small shapes, not a proof about the C text): '
                   'visit sequences, iter.parent at each post-order visit, link/tag images after completion and in the middle of cut-short iterations, deallocator logs, ASan on individually malloc\'ed nodes. '
-                  'Distinct node ids in the theorems correspond to distinct addresses of live nodes.',
+                  'Distinct node ids in the theorems correspond to distinct addresses of live nodes. '
+                  'NOT covered by a theorem, only by the correspondence run (sampling): (a) re-entrancy - a deallocator that itself calls bintree_free on another tree the node owns '
+                  '(the model threads the iterator as a local value and its free is a pure function that leaves everything outside its tree untouched, so the expected log is the composition over the disjoint trees; '
+                  'the harness nests the real calls two levels deep); (b) constant stack space on maximally unbalanced trees - the model has no notion of stack; left/right/zig-zag chains of 6000-20000 nodes '
+                  '(thorough: 12000-100000) are iterated in all orders and freed by the real code in a thread with a 128 KiB stack, compared with the Python specification only.',
     'design_ref': '§6 C11',
 }
 REQUIRED = ['Librfn.C11.' + n for n in (
@@ -209,6 +213,7 @@ class Spec:
     def __init__(self):
         self.n, self.root, self.l, self.r, self.dead, self.lists = 0, None, [], [], [], set()
         self.rest, self.post, self.open = None, False, False
+        self.owns = {}
 
     def trav(self, order, root):
         """recursive traversal (explicit stack); post-order entries carry the parent"""
@@ -242,10 +247,18 @@ class Spec:
         return ' '.join(['img'] + ['x' if self.dead[i] else f'{p(self.l[i])},0,{p(self.r[i])}' for i in range(self.n)])
 
     def kill(self, root):
-        seq = self.trav('post', root)
-        for x, _ in seq:
-            self.dead[x] = True
-        return seq
+        """what the deallocator is handed, in order: the post-order sequence of the tree, and right after each
+        node that owns another tree the same for that tree (the deallocator frees it with a nested bintree_free)"""
+        out, work = [], [iter(self.trav('post', root))]
+        while work:
+            x = next(work[-1], None)
+            if x is None:
+                work.pop(); continue
+            out.append(x); self.dead[x[0]] = True
+            j = self.owns.pop(x[0], None)
+            if j is not None:
+                work.append(iter(self.trav('post', j)))
+        return out
 
     def step(self, line):
         """expected output line, or None where the property prescribes nothing (links in the middle of an iteration)"""
@@ -261,6 +274,10 @@ class Spec:
             return 'ok'
         if w[0] == 'lists':
             self.lists = set(int(x) for x in w[1:]); return 'ok'
+        if w[0] == 'owns':
+            for a, b in zip(w[1::2], w[2::2]):
+                self.owns[int(a)] = int(b)
+            return 'ok'
         if w[0] == 'image':
             return None if self.open else self.image()
         if w[0] == 'trav':
@@ -316,6 +333,31 @@ def spine_kind(s, root):
     return 'both' if L and R else 'left' if L else 'right' if R else None
 
 
+def owns_ok(s, ids):
+    """ownership pairs (owner, root of the owned tree): live nodes, the owned node is the root of a tree of the forest
+    other than the main tree, owned once, and ownership between trees is acyclic (the trees are disjoint by construction)"""
+    if len(ids) % 2 or any(not (0 <= x < s.n) or s.dead[x] for x in ids):
+        return False
+    child = set(x for x in s.l + s.r if x is not None)
+    tree_of = {}
+    for r in range(s.n):
+        if r not in child:
+            for x, _ in s.trav('pre', r):
+                tree_of[x] = r
+    owner_tree = {}
+    for a, b in zip(ids[0::2], ids[1::2]):
+        if b in child or b == s.root or b in owner_tree or b in s.owns.values() or a in s.owns or tree_of.get(a) is None:
+            return False
+        owner_tree[b] = tree_of[a]
+    for b in owner_tree:            # walk up: must end at a tree nobody owns (no cycle)
+        seen, t = set(), b
+        while t in owner_tree:
+            if t in seen:
+                return False
+            seen.add(t); t = owner_tree[t]
+    return True
+
+
 def valid(h):
     """the history stays inside what the property talks about: complete iterations of an intact tree
     (a cut-short iteration is resumed before anything but `image`), list iteration only on list spines,
@@ -323,7 +365,9 @@ def valid(h):
     s = Spec()
     for line in h:
         w = line.split()
-        if w[0] not in ('reset', 'tree', 'lists', 'image', 'trav', 'iter', 'resume', 'free', 'freel', 'freer'):
+        if w[0] not in ('reset', 'tree', 'lists', 'owns', 'image', 'trav', 'iter', 'resume', 'free', 'freel', 'freer'):
+            return False
+        if w[0] == 'owns' and not owns_ok(s, [int(x) for x in w[1:]]):
             return False
         if s.open and w[0] not in ('image', 'resume'):
             return False
@@ -427,6 +471,101 @@ def list_history(rng, m, leaning, bushy):
     return h
 
 
+def forest_line(trees, n, offs=None):
+    """tree line for a forest of labelled trees over ids 0…n-1; the first tree is the main one"""
+    base = tree_line(trees[0], n).split()
+    for t in trees[1:]:
+        w = tree_line(t, n).split()
+        for i in range(3, 3 + 2 * n):
+            if w[i] != '-':
+                base[i] = w[i]
+    suffix = ['align'] + [str(o) for o in offs] if offs and any(offs) else []
+    return ' '.join(base + suffix)
+
+
+def relabel_from(tree, start):
+    """pre-order ids start, start+1, …; returns (tree, next free id)"""
+    cnt = [start]
+    def walk(t):
+        if t is None:
+            return None
+        x = [cnt[0], None, None]; cnt[0] += 1
+        x[1] = walk(t[1]); x[2] = walk(t[2])
+        return x
+    return walk(tree), cnt[0]
+
+
+def nested_history(rng, shape, first_owner=None):
+    """some nodes of the main tree own a secondary tree of 1…3 nodes, a node of a secondary tree may own a third one:
+    the deallocator re-enters bintree_free (two levels deep)"""
+    main, n = label(shape)
+    trees, pairs = [main], []
+    def ids_of(t):
+        return [x for x, _ in _pre(t)]
+    owners = [first_owner] if first_owner is not None else []
+    owners += [x for x in rng.shuffle(ids_of(main)) if x not in owners][:rng.range(0, 2)]
+    level2 = []
+    for o in owners:
+        sub, n2 = relabel_from(label(random_shape(rng, rng.range(1, 3)))[0], n)
+        trees.append(sub); pairs.append((o, n)); level2.append(sub); n = n2
+    for sub in level2:
+        if rng.chance(1, 2):
+            o = rng.choice(ids_of(sub))
+            sub2, n2 = relabel_from(label(random_shape(rng, rng.range(1, 3)))[0], n)
+            trees.append(sub2); pairs.append((o, n)); n = n2
+    h = [forest_line(trees, n, pick_align(rng, n, rng.choice([None, None, 2, 'mixed']))),
+         ' '.join(['owns'] + [f'{a} {b}' for a, b in pairs])]
+    h += rng.choice([['iter post', 'image'], ['iter in', 'image'], []])
+    if rng.chance(1, 3) and main is not None:
+        h += [rng.choice(['freel', 'freer']) + f' {rng.choice(ids_of(main))}', 'image']
+    h += ['free', 'image']
+    return h
+
+
+def _pre(t):
+    out, stack = [], [t]
+    while stack:
+        x = stack.pop()
+        if x is None:
+            continue
+        out.append((x[0], None)); stack.append(x[2]); stack.append(x[1])
+    return out
+
+
+# ---- maximally unbalanced trees on a small stack (C side only: the oracle is the Python specification)
+SMALL_STACK_KIB = 128
+DEEP_KINDS = ('left-chain', 'right-chain', 'zigzag-chain')
+
+
+def deep_history(kind, n, ops):
+    links = []
+    for i in range(n):
+        c = str(i + 1) if i + 1 < n else '-'
+        if kind == 'left-chain':
+            links += [c, '-']
+        elif kind == 'right-chain':
+            links += ['-', c]
+        else:
+            links += [c, '-'] if i % 2 == 0 else ['-', c]
+    return [' '.join(['tree', str(n), '0' if n else '-'] + links)] + list(ops)
+
+
+DEEP_OPS_ALL = ['iter in', 'image', 'iter pre', 'image', 'iter post', 'image', 'free', 'image']
+DEEP_OPS_LINEAR = ['iter in', 'iter pre', 'image']
+
+
+def Spec_first_postorder(shape):
+    """pre-order id of the first node in post-order (leftmost-deepest leaf) of a shape"""
+    t, _ = label(shape)
+    while True:
+        if t[1] is not None:
+            t = t[1]
+        elif t[2] is not None:
+            t = t[2]
+        else:
+            return t[0]
+
+
 def Spec_for(h):
     s = Spec()
     for l in h[:2]:
@@ -467,6 +606,15 @@ def gen(ctx, rng):
     for _ in range(40 if quick else 400):
         n = rng.choice([rng.range(8, 20), rng.range(8, 20), rng.range(20, 60), rng.range(60, 200)])
         hs.append(history(rng, random_shape(rng, n), rng.choice(['plain', 'plain', 'exhaustive', 'free-first']), 'any')); tags.append('random')
+    # re-entrant deallocator: every shape up to 5 nodes with the FIRST post-order node owning a tree (the outer walk
+    # has everything still to do when the nested bintree_free runs), and with random owners
+    for n in range(1, 6):
+        for s in shapes(n):
+            first = Spec_first_postorder(s)
+            hs.append(nested_history(rng, s, first)); tags.append('nested-free')
+            hs.append(nested_history(rng, s, None)); tags.append('nested-free')
+    for _ in range(10 if quick else 150):
+        hs.append(nested_history(rng, random_shape(rng, rng.range(6, 30)), None)); tags.append('nested-free')
     # list spines
     for m in list(range(0, 9)) + [rng.range(9, 40), rng.range(40, 90)]:
         for leaning in ('left', 'right'):
@@ -479,7 +627,7 @@ def gen(ctx, rng):
 def harness(ctx):
     R = vlib.REPO
     exe, log = ctx.cc('h_bintree', [os.path.join(vlib.VERIF, 'harness/h_bintree.c'), R + '/librfn/util.c', R + '/librfn/string.c', R + '/librfn/posix/time_posix.c'],
-                      ['-I' + R + '/librfn'])
+                      ['-I' + R + '/librfn', '-pthread'])
     if not exe:
         raise vlib.Infra('bintree harness does not compile against the repo: ' + log[-1500:])
     return exe
@@ -489,8 +637,9 @@ def batch_text(hs):
     return ''.join('reset\n' + '\n'.join(h) + '\n--\n' for h in hs)
 
 
-def run_impl(exe, hs, timeout=90):
-    return [x[1:] for x in vlib.split_histories(vlib.run_exe([exe], batch_text(hs), timeout))]
+def run_impl(exe, hs, timeout=90, stack=None):
+    cmd = [exe] + (['--stack', str(stack)] if stack else [])
+    return [x[1:] for x in vlib.split_histories(vlib.run_exe(cmd, batch_text(hs), timeout))]
 
 
 def run_both(ctx, exe, hs, timeout=90):
@@ -579,7 +728,7 @@ def shrink(ctx, exe, h, budget=250, seconds=60):
         ops = h[1:]
     cur = [h[0]] + ops
     tree = parse_tree(h[0])
-    progress = True
+    progress = not any(l.startswith('owns') for l in cur)     # a forest is not pruned (its trees are small anyway)
     while progress and budget > 0:
         progress = False
         for cand in tree_candidates(tree):
@@ -595,6 +744,19 @@ def shrink(ctx, exe, h, budget=250, seconds=60):
     ops = vlib.ddmin(cur[1:], lambda c: fails([cur[0]] + c), max_tests=40) if len(cur) > 2 else cur[1:]
     if fails([cur[0]] + ops):
         cur = [cur[0]] + ops
+    # fewer ownership pairs (an unowned secondary tree simply stays in the forest, untouched)
+    for i, line in enumerate(cur):
+        if line.startswith('owns'):
+            w = line.split()[1:]
+            pairs = list(zip(w[0::2], w[1::2]))
+            j = 0
+            while j < len(pairs) and len(pairs) > 1:
+                cand = pairs[:j] + pairs[j + 1:]
+                c = cur[:i] + [' '.join(['owns'] + [f'{a} {b}' for a, b in cand])] + cur[i + 1:]
+                if fails(c):
+                    cur, pairs = c, cand
+                else:
+                    j += 1
     # simpler placement: all nodes on the 8-byte grid, else all at one offset, else as found
     offs = align_of(cur[0])
     if any(offs):
@@ -668,6 +830,51 @@ def deeper_search(ctx, exe, rng):
                 return
 
 
+def deep_campaign(ctx, exe, rng):
+    """left chains, right chains and zig-zags far deeper than the small stack could hold if stack use grew with depth:
+    all iterators and bintree_free run in a thread with a SMALL_STACK_KIB stack; implementation vs specification only
+    (never through the Lean model; the harness's recursive reference traversals are not used)"""
+    quick = ctx.tier == 'quick'
+    n_all = 6000 if quick else 12000
+    n_lin = 20000 if quick else 100000
+    cases = [(k, n_all, DEEP_OPS_ALL) for k in DEEP_KINDS]
+    cases += [(k, n_lin, DEEP_OPS_LINEAR) for k in ([rng.choice(DEEP_KINDS)] if quick else DEEP_KINDS)]
+    ok = 0
+    for kind, n, ops in cases:
+        h = deep_history(kind, n, ops)
+        ctx.count(('deep', kind, n, tuple(ops)))
+        fails = lambda hh: not matches(run_impl(exe, [hh], timeout=120, stack=SMALL_STACK_KIB)[0], spec(hh))
+        if not fails(h):
+            ok += 1
+            continue
+        # smallest chain of this kind on which it still fails, then the fewest ops
+        lo, hi = 1, n
+        while lo < hi:
+            mid = (lo + hi) // 2
+            if fails(deep_history(kind, mid, ops)):
+                hi = mid
+            else:
+                lo = mid + 1
+        ops2 = vlib.ddmin(list(ops), lambda c: fails(deep_history(kind, hi, c)), max_tests=30)
+        hh = deep_history(kind, hi, ops2 if fails(deep_history(kind, hi, ops2)) else ops)
+        if not fails(hh):
+            hh = h
+        a = run_impl(exe, [hh], timeout=120, stack=SMALL_STACK_KIB)[0]
+        exp = spec(hh)
+        k = next((i for i in range(max(len(a), len(exp))) if i >= len(a) or i >= len(exp) or (exp[i] is not None and a[i] != exp[i])), None)
+        short = lambda xs: [x if len(x) < 160 else x[:150] + ' …' for x in xs]
+        ctx.violation({'obligation': 'bintree on a maximally unbalanced tree with a small stack: implementation vs specification (the iterators and bintree_free are constant-space)',
+                       'ops': ['reset'] + hh, 'shape': f'{kind} of {hh[0].split()[1]} nodes', 'nodes': int(hh[0].split()[1]), 'stack_kib': SMALL_STACK_KIB,
+                       'failing_op': hh[k] if k is not None and k < len(hh) else None, 'first_difference_at_output': k,
+                       'expected': short(exp[max(0, (k or 0) - 1):(k or 0) + 1]), 'observed': short(a[max(0, (k or 0) - 1):(k or 0) + 2]),
+                       'how_to_rerun': f'./check {ctx.pid} --replay <this file>'},
+                      key=f'deep:{kind}:{"+".join(hh[1:])}')
+        break
+    ctx.cov['small_stack_kib'] = SMALL_STACK_KIB
+    ctx.cov['deep_chain_cases'] = [f'{k} x{n}: {" ".join(o)}' for k, n, o in cases]
+    return ok
+
+
 def run_corpus(ctx, exe):
     d = os.path.join(vlib.VERIF, 'corpus', ctx.pid)
     hs = []
@@ -697,6 +904,8 @@ def run(ctx):
             agreed += compare(ctx, exe, hs[i:i + B], 'generated')
             if ctx.violations or ctx.broken:
                 break
+    if not ctx.violations:
+        ctx.cov['deep_chain_cases_agreeing_with_spec'] = deep_campaign(ctx, exe, rng)
     if ctx.broken and not ctx.violations:
         deeper_search(ctx, exe, vlib.Rng(ctx.seed + 7919))
     hist, offhist = {}, {}
@@ -717,6 +926,8 @@ def run(ctx):
     ctx.cov['rule'] = (f'every binary tree shape with 0…{ctx.cov["exhaustive_shapes_up_to_nodes"]} nodes (enumerated, {ctx.cov["exhaustive_shape_count"]} shapes), degenerate shapes (left/right spines, zig-zags, complete trees) up to 200 nodes, '
                        'seeded random shapes up to 200 nodes, left- and right-leaning list spines (0…90 list nodes, elements with and without sub-trees); per shape: recursive traversal, iterator to completion, '
                        'link image, iterator cut after k calls + image + resume, bintree_free_left/right of a random node, bintree_free with a really-freeing logging deallocator under ASan; '
+                       'nodes owning a secondary tree (1-3 nodes, two levels deep) that the deallocator frees with a nested bintree_free; '
+                       '6000/20000-node left/right/zig-zag chains in all orders + free on a 128 KiB thread stack (C vs specification only); '
                        'node ids permuted in a third of the cases; node addresses at 0, 2, 4, 6 mod 8 (every small shape with all nodes at 2 mod 8 and with a per-node mix; shapes <= 5 nodes also all at 4 and at 6; '
                        'larger shapes at random). distinct = distinct (shape, placement, op list); non-trivial = at least 2 nodes')
     ctx.assumptions.append(META['level_note'])
@@ -731,6 +942,13 @@ def replay(ctx, path):
     if not ctx.build_model():
         return 2
     h = [l for l in r['ops'] if l != 'reset']
+    if r.get('stack_kib'):      # a deep-chain case: C side on the small stack against the specification, no model
+        a = run_impl(exe, [h], timeout=120, stack=r['stack_kib'])[0]
+        exp = spec(h)
+        ok = matches(a, exp)
+        print('implementation:', [x[:60] for x in a[:12]]); print('expected      :', [(x or '')[:60] for x in exp[:12]])
+        print('SAME' if ok else 'DIFFER')
+        return 0 if ok else 1
     impl, model = run_both(ctx, exe, [h], timeout=10)
     exp = spec(h)
     shown = [m if e is None else e for e, m in zip(exp, model[0] + [None] * len(exp))]
